@@ -55,27 +55,32 @@ func c15Get() *c15World {
 		c15W = nil
 	}
 	if c15W == nil {
-		dir := server.VNewScratchDir("c15")
-		w := &c15World{dir: dir}
-		w.jw = jobs.JOpenWorld(dir)
-		env := w.jw.W.Env
-		env.Auth = &conf.AuthConfig{Middleware: "noop"}
-		logger := zap.NewNop().Sugar()
-		pm := security.NewProviderManager(env, w.jw.W.Store, logger)
-		tps := security.NewTokenProviders(logger, pm, nil)
-		ws, err := NewWebService(&ServiceContext{
-			Env: env, Logger: logger, Statsd: &statsd.NoOpClient{},
-			ContentService: content.NewContentService(env, w.jw.W.Store, &statsd.NoOpClient{}),
-			DatasetManager: w.jw.W.Dsm, Store: w.jw.W.Store, EventBus: server.NoOpBus(), TokenProviders: tps,
-			JobsScheduler: w.jw.Sched, Port: "0",
-		})
-		if err != nil {
-			panic(err)
-		}
-		w.ws = ws
-		c15W = w
+		c15W = c15New()
 	}
 	return c15W
+}
+
+// c15New opens a hub of its own: store, dataset manager, runner, scheduler and the real web service (no auth).
+func c15New() *c15World {
+	dir := server.VNewScratchDir("c15")
+	w := &c15World{dir: dir}
+	w.jw = jobs.JOpenWorld(dir)
+	env := w.jw.W.Env
+	env.Auth = &conf.AuthConfig{Middleware: "noop"}
+	logger := zap.NewNop().Sugar()
+	pm := security.NewProviderManager(env, w.jw.W.Store, logger)
+	tps := security.NewTokenProviders(logger, pm, nil)
+	ws, err := NewWebService(&ServiceContext{
+		Env: env, Logger: logger, Statsd: &statsd.NoOpClient{},
+		ContentService: content.NewContentService(env, w.jw.W.Store, &statsd.NoOpClient{}),
+		DatasetManager: w.jw.W.Dsm, Store: w.jw.W.Store, EventBus: server.NoOpBus(), TokenProviders: tps,
+		JobsScheduler: w.jw.Sched, Port: "0",
+	})
+	if err != nil {
+		panic(err)
+	}
+	w.ws = ws
+	return w
 }
 
 func (w *c15World) destroy() {
